@@ -3,6 +3,14 @@
 import json, subprocess
 
 CLAIMED = {
+  "C07": ("corpus + proptest-mutated programs; oracle: all-paths abstract interpreter over (operand height, defined-locals interval) per function + table cross-reference check, in three packaging forms; interpreter validated dynamically at quantum 1",
+          "Every function of every harvested/std/mutated program that compiles is verified on all control-flow paths (jump range, no underflow, equal height at joins, exit height 1, loads below the all-paths minimum of defined locals, TailCall operand height, index ranges, table cross references) as compiled, after tree_shake, and inside Environment::get_program() after merging behind 0-3 other programs. All paths of each function are covered; the set of programs is sampled.",
+          "Trusts the verifier's instruction model, which is cross-checked against the real executor on ~10^6 executed instructions per run (self-check failure => exit 2). One recorded finding (non-tail `^`) is attributed only by an AST tail-position analysis and only for the TailCall-height rule.",
+          "DESIGN.md §4 C07"),
+  "C12": ("proptest argument generation per builtin from its registered TypeSpec; oracle: independent BigInt/Vec<u8> reference models + rope-shape metamorphic relation; direct and compiled call channels",
+          "Each of the 45 pure builtins is called ~2*10^4 (quick) times with boundary-biased integers and generated rope shapes; outcome must equal the reference model, or be a clean error exactly where the model says the argument is outside the documented domain; panics are caught and reported. Exploration only.",
+          "Trusts the host reference models (written from the builtins' doc comments; unspecified corners accept either outcome and are listed in the evidence assumptions). Built with overflow-checks + debug-assertions.",
+          "DESIGN.md §4 C12"),
   # id: (technique, level text, level note, design_ref)
   "C18": ("proptest-generated inputs + corpus mutation (prefix/token delete/dup/subst/transpose/wide-char) + bracket nests to depth 100; oracle: no panic, located error, deterministic production budget",
           "Generated-input search over front-end inputs: every run parses ~10^5 generated/mutated texts and compiles the accepted ones, checking no panic, error position inside the input on a char boundary with consistent line/column, and a polynomial production budget via hook H5. Exploration only: absence is not established.",
